@@ -67,6 +67,12 @@ def universe(key, tier):
                     if other == "init":
                         continue
             out.append((level, cid))
+    if key == "tcrm":
+        # monitors are reset/advanced by the interplay of an initial value, one effect and the
+        # constraint: all core triples (effect slot, init, traj)
+        for es in [x for v in EFFS.values() for x in v]:
+            for cid in uprob.ids(3, [es, "init", "traj"], True, variant):
+                out.append((3, cid))
     return out
 
 
